@@ -35,20 +35,25 @@ type evalReq struct {
 
 var evalProcessCh = make(chan evalReq, 100)
 
+var evalRoutinesOnce sync.Once
+
 // evalRoutines starts a set of concurrent evaluation routines.
+// The routines serve the process-wide evalProcessCh, so they are started once.
 func evalRoutines() {
-	for i := 0; i < runtime.NumCPU(); i++ {
-		go func() {
-			var i int
-			var p v3.Vec
-			for r := range evalProcessCh {
-				for i, p = range r.p {
-					r.out[i] = r.fn(p)
+	evalRoutinesOnce.Do(func() {
+		for i := 0; i < runtime.NumCPU(); i++ {
+			go func() {
+				var i int
+				var p v3.Vec
+				for r := range evalProcessCh {
+					for i, p = range r.p {
+						r.out[i] = r.fn(p)
+					}
+					r.wg.Done()
 				}
-				r.wg.Done()
-			}
-		}()
-	}
+			}()
+		}
+	})
 }
 
 //-----------------------------------------------------------------------------
